@@ -89,8 +89,14 @@ CasHit(rf, c, old) == rf[c.r] = old
 CasRefs(rf, c, old) == IF rf[c.r] = old THEN [rf EXCEPT ![c.r] = c.new] ELSE rf
 WireStatus(hit) == IF hit \/ ~CheckCas THEN "ok" ELSE "ng"
 LocalStatus(hit) == IF hit THEN "ok" ELSE "ng"
-\* post values of the commands once the push has ended
-Finish(p, rf, ex, po) == [i \in Idx(p) |-> IF ex[i] THEN po[i] ELSE rf[C(p)[i].r]]
+\* post values of the commands once the push has ended.  A command without a ref operation is
+\* judged by the value of the ref when the push ended -- except in a local push for a ref that
+\* held the requested value when the client read the refs (nothing to do: the instant of that
+\* read is what the reported success refers to, whatever another pusher does afterwards)
+Finish(p, rf, ex, po) ==
+    [i \in Idx(p) |-> IF ex[i] THEN po[i]
+                      ELSE IF push[p].kind = "local" /\ olds[p][i] = C(p)[i].new THEN C(p)[i].new
+                      ELSE rf[C(p)[i].r]]
 
 H(rec) == hist' = IF KeepHist THEN Append(hist, rec) ELSE hist
 
